@@ -142,25 +142,25 @@ class ReturnChecker:
         pre_mode, post_mode = rec['pre'][1] & 0x1F, rec['post'][1] & 0x1F
         arm = b.cores[0].arm
         name = type(arm.executed_opcode).__name__
-        if pre_mode == hmode and post_mode != hmode and any(x in name for x in ('SubsPcLr', 'LdmExceptionReturn', 'Rfe', 'Eret')):
+        entered = [1 for t, k in self.mon.taken if t == rec['tick']]
+        if pre_mode == hmode and post_mode != hmode and not entered:
+            # the handler's mode was left without a new exception entry: this is the exception return (recognised by what it
+            # does, not by the opcode class name, so renaming classes cannot upset the check)
             self.stack.pop()
             post_cpsr = rec['post'][1]
             pc = rec['post'][0][M.RNAMES.index('PC')]
             ret = self.meta['returns'].get(kind, '?')
+            site = name[:-2] if name[-2:] in ('A1', 'A2', 'T1', 'T2') else name
             if post_cpsr != saved:
-                b.violate('return.cpsr_restored', name[:-2] if name[-2] in 'AT' else name, 'cpsr_not_restored',
+                b.violate('return.cpsr_restored', site, 'cpsr_not_restored',
                           '%s return (%s) from %s handler: CPSR %#010x, interrupted CPSR was %#010x' % (ret, name, kind, post_cpsr, saved))
             elif resume is not None and pc != resume:
-                b.violate('return.cpsr_restored', name[:-2] if name[-2] in 'AT' else name, 'wrong_resume_address',
+                b.violate('return.cpsr_restored', site, 'wrong_resume_address',
                           '%s return from %s handler resumed at %#x, expected %#x' % (ret, kind, pc, resume))
             else:
                 key = 'ret|%x|%s|%d|%s|%s|%d' % (saved & 0x1F, 'T' if (saved >> 5) & 1 else 'A', in_it, kind, ret, self.meta['te'])
                 b.cover.add(key)
                 b.count('probe.returns-completed')
-        elif pre_mode == hmode and post_mode != hmode and pre_mode != 0x1f and not self.mon.taken[-1:] == [(rec['tick'], 'fiq')] \
-                and not [1 for t, k in self.mon.taken if t == rec['tick']]:
-            # left the handler mode by something that is not a return instruction
-            b.violate('return.cpsr_restored', name, 'handler_left_without_return', 'mode %#x -> %#x by %s' % (pre_mode, post_mode, name))
 
 
 def run_program(case, events, observers_extra=()):
@@ -397,7 +397,7 @@ def run_psr_walk(case):
             if (got ^ want) & m2:
                 cls = 'privileged_read_loses_bits' if cur != 0x10 and not (got & ~want) else 'wrong_value'
                 if not any(v['cls'] == cls and v['oracle'] == 'psr.mrs' for v in b.violations):
-                    b.violate('psr.mrs', site, cls,
+                    b.violate('psr.mrs', 'MRS', cls,
                               'MRS %s in mode %#x returned %#010x, architecture gives %#010x' % ('SPSR' if k == 'mrs_spsr' else 'CPSR', cur, got, want))
                 if cls != 'privileged_read_loses_bits':
                     break
